@@ -449,6 +449,15 @@ def SizesOk (objSize : Nat → Option Nat) (m : Items) : Prop :=
 instance (objSize : Nat → Option Nat) (m : Items) : Decidable (SizesOk objSize m) := by
   unfold SizesOk; infer_instance
 
+/-- well-formed delta: what `Delta::create` produces and what `Delta::read` accepts without a
+warning (sorted sets/maps of `i32` data, no key both deleted and updated, sizes that fit) -/
+def Delta.WF (d : Delta) : Prop :=
+  SortedSet d.deleted ∧ (∀ k ∈ d.deleted, I32 k) ∧ Sorted d.updated ∧
+  (∀ p ∈ d.updated, I32 p.1 ∧ (∀ x ∈ p.2, I32 x) ∧ p.1 ∉ d.deleted) ∧
+  d.deleted.length < 2147483648 ∧ d.updated.length < 2147483648 ∧ dataLen d.updated < 2147483648
+
+instance (d : Delta) : Decidable d.WF := by unfold Delta.WF; infer_instance
+
 /-- `trait ReadInt`: the two kinds of input a delta is read from -/
 inductive Src where
   | ints (l : List Int)
